@@ -40,6 +40,7 @@ type Up4Gen struct {
 	Wide bool
 	// ForceSessQer / OneFlow: every session has a session QER / exactly one flow (crowds that hold many meter cells)
 	ForceSessQer bool
+	ForceFwd     bool // sessions forward downlink traffic to a gNB from their establishment on
 	OneFlow      bool
 	PeerBase     int // the generator's peers are p<PeerBase+1>..
 	// UsePfd: the application filters are provisioned as PFDs (one application per filter, one description per
@@ -224,6 +225,15 @@ func (s *usess) Flows() int { return len(s.flows) }
 
 // FreshGnbs replaces the pool of gNB addresses: sessions established from now on do not share tunnel peers with
 // the earlier ones (a FAR update then leaves the old peer without users).
+// PinGnbOf makes every session established from now on (until FreshGnbs) forward to the gNB the given session forwards to.
+func (g *Up4Gen) PinGnbOf(x interface{ Live() bool }) {
+	if s, ok := x.(*usess); ok && s.fd.Action == 2 {
+		for i := range g.gnbs {
+			g.gnbs[i] = s.fd.PeerIP
+		}
+	}
+}
+
 func (g *Up4Gen) FreshGnbs() {
 	for i := range g.gnbs {
 		g.gnbs[i] = 0xC0A80000 + uint32(g.R.Intn(1<<16))
@@ -499,6 +509,10 @@ func (g *Up4Gen) Establish(peer string) bool {
 	}
 
 	s.fd = g.dlFar(0, false)
+	for i := 0; g.ForceFwd && s.fd.Action != 2 && i < 50; i++ { // the session forwards downlink traffic from the start (it uses a tunnel peer)
+		s.fd = g.dlFar(0, false)
+	}
+
 	nf := 1 + g.R.Intn(3)
 	if g.OneFlow {
 		nf = 1
@@ -577,11 +591,12 @@ func (s *usess) Live() bool { return s != nil && s.live }
 
 // Kinds of modification for ModifyKind.
 const (
-	ModFar    = 0 // all downlink FARs: buffer / drop / forward to a gNB
-	ModQer    = 4
-	ModPdr    = 6
-	ModRemove = 7
-	ModAdd    = 9
+	ModFarSame = 10 // all downlink FARs: the same gNB, a new TEID (the tunnel peer stays, its entry is written again)
+	ModFar     = 0  // all downlink FARs: buffer / drop / forward to a gNB
+	ModQer     = 4
+	ModPdr     = 6
+	ModRemove  = 7
+	ModAdd     = 9
 )
 
 // RemoveDownlink removes every downlink PDR of the session together with its FAR; the uplink rules stay.
@@ -616,6 +631,24 @@ func (g *Up4Gen) ModifyKind(s *usess, kind int) {
 	g.Stats["mod"]++
 
 	switch {
+	case kind == ModFarSame:
+		nf := s.fd
+		if nf.Action != 2 {
+			nf = pfcpx.FAR{Action: 2, HasFP: true, Dst: "access", OHC: true, PeerIP: g.gnbs[0]}
+		}
+
+		nf.HasFP, nf.Dst, nf.TEID = true, "access", g.nextTeid()
+
+		for _, f := range s.flows {
+			x := nf
+			x.ID = f.dlFar
+			r.UFAR = append(r.UFAR, x)
+		}
+
+		if accepted(g.W.Mod(s.peer, r)) {
+			s.fd = nf
+			g.Stats["mod_far_ok"]++
+		}
 	case kind < 4: // every downlink FAR of the session: buffer <-> forward, handover to another gNB
 		nf := g.dlFar(0, true)
 
